@@ -11,6 +11,7 @@ import (
 	cfg "github.com/tendermint/tendermint/config"
 	"github.com/tendermint/tendermint/libs/log"
 	mempl "github.com/tendermint/tendermint/mempool"
+	mpmock "github.com/tendermint/tendermint/mempool/mock"
 	mempoolv0 "github.com/tendermint/tendermint/mempool/v0"
 	sm "github.com/tendermint/tendermint/state"
 	"github.com/tendermint/tendermint/types"
@@ -137,5 +138,100 @@ func TestRegressProposalSizeAfterShrink(t *testing.T) {
 		}
 		t.Errorf("proposer block at height %d is %d bytes (part set %d), Block.MaxBytes is %d: LastCommit has %d slots, data was sized for %d validators",
 			h, size, parts.ByteSize(), limit, st.LastValidators.Size(), st.Validators.Size())
+	}
+}
+
+// TestRegressMedianTimeUnixNanoWrap: the weighted median must order vote timestamps as instants. v0.34.24 orders them
+// by Time.UnixNano(), which wraps outside 1678..2262: one of four equal validators stamps its (validly signed)
+// precommit 2^64 ns (584 years) after an instant inside the honest spread, is sorted into the middle, and its
+// far-future timestamp becomes the block time of the correct proposer's block, accepted by every node.
+func TestRegressMedianTimeUnixNanoWrap(t *testing.T) {
+	c, err := lib.NewChain(lib.ChainSpec{ChainID: "regress-c06", Keys: []int{0, 1, 2, 3}, Powers: []int64{10, 10, 10, 10}})
+	if err != nil {
+		t.Fatal(err)
+	}
+	defer c.Close()
+	// honest precommits at +1s, +2s, +3s after the block; the fourth validator at +1.5s, re-stamped below
+	offs := []time.Duration{1500 * time.Millisecond, time.Second, 2 * time.Second, 3 * time.Second}
+	if err := c.Advance(&lib.HeightPlan{TsOffsets: offs}); err != nil {
+		t.Fatal(err)
+	}
+	h := c.Tip()
+	c.Commits[h] = restamp(c.Spec.ChainID, c.Commits[h], c.State.LastValidators, []farStamp{{slot: 0, kind: "+2^64ns"}})
+	far := c.Commits[h].Signatures[0].Timestamp
+	latestHonest := c.Blocks[h].Time.Add(3 * time.Second)
+	blk, _ := c.BuildNext(&lib.HeightPlan{}) // the correct proposer
+	want, _ := refMedian(commitEntries(c.Commits[h], c.State.LastValidators, false))
+	err = c.Exec.ValidateBlock(c.State, cloneBlock(blk))
+	if !blk.Time.Equal(want) || blk.Time.After(latestHonest) {
+		if lib.IsKnown(findingWrap) {
+			lib.ObservedKnown(findingWrap)
+			return
+		}
+		t.Errorf("precommit timestamps: %v (one of four equal validators), honest ones up to %v; weighted median is %v, "+
+			"but the proposer's block time is %v and ValidateBlock says %v", far, latestHonest, want, blk.Time, err)
+	} else if err != nil {
+		t.Errorf("correct block rejected: %v", err)
+	}
+}
+
+// TestRegressEvidenceBudgetExceedsBlockRoom: ConsensusParams only require Evidence.MaxBytes <= Block.MaxBytes. With
+// Block.MaxBytes = Evidence.MaxBytes = 4096 and ten pending evidence items (well within Evidence.MaxBytes) the
+// proposer of v0.34.24 asks the pool for the full Evidence.MaxBytes and then panics in MaxDataBytes ("Negative
+// MaxDataBytes") instead of building a block with the evidence that fits.
+func TestRegressEvidenceBudgetExceedsBlockRoom(t *testing.T) {
+	p := lib.DefaultParams()
+	p.Block.MaxBytes, p.Evidence.MaxBytes = 4096, 4096
+	c, err := lib.NewChain(lib.ChainSpec{ChainID: "regress-c06", Keys: []int{0, 1, 2, 3}, Powers: []int64{10, 10, 10, 10}, Params: p})
+	if err != nil {
+		t.Fatal(err)
+	}
+	defer c.Close()
+	if err := c.Advance(&lib.HeightPlan{}); err != nil {
+		t.Fatal(err)
+	}
+	evd := &evDouble{}
+	for i := 0; i < 10; i++ {
+		k := ringMax + 1 + i
+		mk := func(n int) *types.Vote {
+			v := &types.Vote{Type: 2, Height: 1, Round: 0, BlockID: fakeBlockID(byte(i), n), Timestamp: c.Blocks[1].Time,
+				ValidatorAddress: lib.Key(k).PubKey().Address(), ValidatorIndex: 0}
+			signVote(k, c.Spec.ChainID, v)
+			return v
+		}
+		a, b := mk(1), mk(2)
+		if a.BlockID.Key() >= b.BlockID.Key() {
+			a, b = b, a
+		}
+		evd.list = append(evd.list, &types.DuplicateVoteEvidence{VoteA: a, VoteB: b, TotalVotingPower: 40, ValidatorPower: 10, Timestamp: c.Blocks[1].Time})
+	}
+	if _, sz := evd.PendingEvidence(p.Evidence.MaxBytes); sz > p.Evidence.MaxBytes || sz < 3000 {
+		t.Fatalf("setup: pending evidence %d bytes", sz)
+	}
+	pexec := sm.NewBlockExecutor(c.StateStore, log.NewNopLogger(), c.Proxy.Consensus(), mpmock.Mempool{}, evd)
+	st := c.State
+	h := c.NextHeight()
+	var blk *types.Block
+	panicked := func() (r interface{}) {
+		defer func() { r = recover() }()
+		blk, _ = pexec.CreateProposalBlock(h, st, c.Commits[h-1], st.Validators.GetProposer().Address)
+		return nil
+	}()
+	if panicked != nil {
+		if lib.IsKnown(findingRoom) {
+			lib.ObservedKnown(findingRoom)
+			return
+		}
+		t.Fatalf("the proposer cannot build a block although Block.MaxBytes=%d, Evidence.MaxBytes=%d are valid parameters: panic: %v",
+			p.Block.MaxBytes, p.Evidence.MaxBytes, panicked)
+	}
+	if err := pexec.ValidateBlock(st, blk); err != nil {
+		t.Errorf("proposer block rejected: %v", err)
+	}
+	if size := int64(blk.Size()); size > p.Block.MaxBytes || blk.Evidence.ByteSize() > p.Evidence.MaxBytes {
+		t.Errorf("proposer block of %d bytes (evidence %d), Block.MaxBytes=%d", size, blk.Evidence.ByteSize(), p.Block.MaxBytes)
+	}
+	if len(blk.Evidence.Evidence) == 0 {
+		t.Errorf("the block carries no evidence although several items fit")
 	}
 }
